@@ -131,6 +131,9 @@ type Exec struct {
 	AllowPanic  bool
 	NoMerge     bool
 	NoLazy      bool
+	BigMode     string // "bv" (default) or "int"
+	BigWidth    int
+	invCount    int
 	LazyAll     bool
 	LazyForks   int
 	Trace       bool
